@@ -7,7 +7,11 @@ package definitions
 //@ func IsValidHttpStatusCode props C06,C14
 //@ ensures result == indom(validHttpStatusCode, code)
 
+// assumed: the conversion is a function of its argument (strconv.ParseUint is deterministic)
+//@ ufunc statusOK(code string) bool
+//@ ufunc statusOf(code string) int
 //@ func ConvertToHttpStatus props C06,C14
+//@ ensures! det: (result1 == nil) == statusOK(code) && implies(result1 == nil, int(result0) == statusOf(code))
 //@ ensures implies(result1 != nil, result0 == 0)
 //@ ensures implies(result1 == nil, indom(validHttpStatusCode, uint(result0)))
 
